@@ -320,6 +320,7 @@ def run(ctx: Ctx):
     finished_mass_on_eos(ctx, pkg.func(f"{MOD}::BeamSearch.forward"), "S3")
     _pad_block_takes_extents_from_its_partner(ctx)
     _batch_axis_dropped_iff_unset(ctx)
+    _beam_table(ctx)
     # shallow fusion: each component keeps its own state through split / extract / mix / merge
     from .search_common import fusion_component_lineage
     fusion_component_lineage(ctx, "S3")
@@ -521,6 +522,187 @@ def _batch_axis_dropped_iff_unset(ctx: Ctx):
            (f"with {bs}={bad[1]} the results are {'squeezed' if bad[2] else 'not squeezed'} (`{u(bad[0])[:40]}` under {bad[3]}): the batch "
             f"axis must be dropped exactly when no batch size was given - a batch of one element keeps its (S, 1, width) / (1, width) layout") if bad else "",
            rel, sites[0].lineno if sites else f.line, sample=dict(sites=len(sites)))
+
+
+def _beam_table(ctx: Ctx):
+    """S10 by value: `BeamSearch.forward` - with `_to_width`, `update_log_probs_for_step` and `beam_search_advance` - is interpreted over
+    exact values (sa/interp.py + sa/teval.py; nothing is run). The language model is a leaf with THREADED STATE: its scores for the next
+    token are a function of a state that is updated from the previous token at every step and re-ordered only through
+    `extract_by_src`; scores are generic rationals that make every path's total unique (a per-(step, state, token) unit fraction of a
+    prime), and `log_softmax` is taken as the identity (the search only adds and compares scores). Grid: vocabularies of 2 and 3
+    tokens, eos unset / first / last token, both finish_all_paths settings, widths 1, 2, 4 and beyond exhaustive, step limits 0, 1,
+    3, unbatched and a batch of two different initial states. For every returned slot with a finite score: the path is distinct in its
+    beam, ends at its first eos (counted in its length) or has the full length, and its score is the model's own chained score of
+    exactly that token sequence, recomputed from the initial state; finite scores are in non-increasing order with -inf slots behind
+    them; a beam at least as wide as the set of complete sequences, run to completion, returns exactly that set; a batch element's
+    result is that of searching it alone. A configuration whose top-k has a tie among finite scores is skipped (counted)."""
+    import itertools
+    import math
+    import numpy as np
+    from fractions import Fraction as Fr
+    from sa.interp import Interp
+    from sa.inteval import NotEvaluable
+    col, pkg = ctx.col, ctx.pkg
+    fwd = pkg.func(f"{MOD}::BeamSearch.forward")
+    adv = pkg.func(f"{MOD}::{ADV}")
+    rel = fwd.module.relname
+    where = f"{rel}::BeamSearch.forward"
+    methods = {st.name: st for st in fwd.cls.node.body if isinstance(st, ast.FunctionDef)}
+    PRIMES = [p_ for p_ in range(2, 2000) if all(p_ % q_ for q_ in range(2, int(p_ ** 0.5) + 1))]
+
+    def lm_step(t, h, tok, V):
+        h2 = (h * 3 + (tok + 1 if tok is not None else 0)) % 5
+        return [Fr(-1) - Fr(1, PRIMES[(t * 5 + h2) * 4 + v]) - Fr(v, 3) * ((h2 + t) % 2) for v in range(V)], h2
+
+    def search(V, width, eos, fap, max_iters, inits, explicit_batch=False):
+        N = len(inits)
+        holder = {}
+
+        def lookup(c):
+            f = c.func
+            if isinstance(f, ast.Name) and f.id == ADV:
+                return adv.node
+            if isinstance(f, ast.Attribute) and isinstance(f.value, ast.Name) and f.value.id == "self" and f.attr in methods \
+                    and f.attr not in ("forward", "__init__", "reset_parameters"):
+                return methods[f.attr]
+            return None
+
+        def leaf(x, env):
+            it = holder["it"]
+            if isinstance(x, ast.Call):
+                cn = call_name(x)
+                if cn == "self.lm.update_input":
+                    return {"h": np.array(list(inits), dtype=int)}
+                if cn == "self.lm.calc_idx_log_probs" and len(x.args) == 3:
+                    hist = np.asarray(it.eval(x.args[0], env))
+                    prev = it.eval(x.args[1], env)
+                    t = int(np.asarray(it.eval(x.args[2], env)).reshape(-1)[0])
+                    M = hist.shape[1]
+                    if not isinstance(prev, dict) or len(prev["h"]) != M:
+                        raise NotEvaluable("language-model state does not line up with the beam")
+                    out, nh = np.empty((M, V), dtype=object), np.zeros((M,), dtype=int)
+                    for m in range(M):
+                        sc, h2 = lm_step(t, int(prev["h"][m]), int(hist[t - 1, m]) if t > 0 else None, V)
+                        nh[m] = h2
+                        out[m, :] = sc
+                    return (out, {"h": nh})
+                if cn == "self.lm.extract_by_src" and len(x.args) == 2:
+                    prev, src = it.eval(x.args[0], env), np.asarray(it.eval(x.args[1], env)).reshape(-1)
+                    return {"h": np.array([prev["h"][int(s_)] for s_ in src], dtype=int)}
+                if isinstance(x.func, ast.Attribute) and x.func.attr == "log_softmax":
+                    return it.eval(x.func.value, env)
+                if cn == "dict" and not x.args and not x.keywords:
+                    return {}
+                if cn == "trunc_divide" and len(x.args) == 2:
+                    a_, d_ = it.eval(x.args[0], env), it.eval(x.args[1], env)
+                    return np.vectorize(lambda v_: Fr(int(v_) // int(d_)) if v_ >= 0 else Fr(-((-int(v_)) // int(d_))), otypes=[object])(a_)
+            if isinstance(x, ast.Attribute) and u(x) == "self.device_buffer.device":
+                return "<device>"
+            return None
+        it = Interp(leaf=leaf, lookup=lookup, tensors=True, max_steps=400000)
+        holder["it"] = it
+        names = [p_.name for p_ in fwd.params[1:]]
+        env = dict(zip(names, (None, None if (N == 1 and not explicit_batch) else N, max_iters)))
+        env.update({"self.eos": eos, "self.width": width, "self.finish_all_paths": fap, "self.lm.vocab_size": V, "self.pad_value": -9})
+        kind, got = it.run(fwd.node, env)
+        if kind != "return" or not isinstance(got, tuple) or len(got) != 3:
+            return f"{kind}: {str(got)[:80]}"
+        y, lens, lp = (np.asarray(g_, dtype=object) for g_ in got)
+        want_nd = (2, 1, 1) if (N == 1 and not explicit_batch) else (3, 2, 2)
+        if (y.ndim, lens.ndim, lp.ndim) != want_nd:
+            return f"the results have {y.ndim}, {lens.ndim} and {lp.ndim} axes; with batch_size {'unset' if want_nd[0] == 2 else 'given'} they have {want_nd}"
+        if N == 1 and not explicit_batch:
+            y, lens, lp = y[:, None], lens[None], lp[None]
+        return y, lens, lp
+
+    def chained(V, init, seq):
+        h, tot, tok = init, Fr(0), None
+        for t, v in enumerate(seq):
+            sc, h = lm_step(t, h, tok, V)
+            tot += sc[v]
+            tok = v
+        return tot
+
+    def complete(V, eos, T):
+        out = []
+        for L in range(0, T + 1):
+            for seq in itertools.product(range(V), repeat=L):
+                if eos is not None and eos in seq[:-1]:
+                    continue
+                if L == T or (eos is not None and L and seq[-1] == eos):
+                    out.append(tuple(seq))
+        return out
+    bad, rows, skipped = None, 0, 0
+    try:
+        for V in (2, 3):
+            for eos in (None, 0, V - 1):
+                for fap in (False, True):
+                    for T in (0, 1, 3):
+                        n_complete = len(complete(V, eos, T))
+                        for width in (1, 2, 4, n_complete + 2):
+                            for inits in ((0,), (2, 0)):
+                                if len(inits) == 2 and (width == 4 or T == 1):
+                                    continue
+                                try:
+                                    res = search(V, width, eos, fap, T, inits, explicit_batch=(len(inits) == 1 and width == 2))  # (a batch of exactly one)
+                                except NotEvaluable as e:
+                                    if "tied" in str(e):
+                                        skipped += 1
+                                        continue
+                                    raise
+                                rows += 1
+                                cfg = dict(vocab=V, eos=eos, finish_all_paths=fap, max_iters=T, width=width, initial_states=list(inits))
+                                if isinstance(res, str):
+                                    bad = bad or (cfg, res)
+                                    continue
+                                y, lens, lp = res
+                                for n, init in enumerate(inits):
+                                    seen, prev_s, dead, problem = set(), None, False, None
+                                    for k in range(lp.shape[1]):
+                                        s_ = lp[n, k]
+                                        if s_ != s_:
+                                            problem = problem or f"slot {k} has a NaN score"
+                                            continue
+                                        if s_ == -math.inf:
+                                            dead = True
+                                            continue
+                                        L = int(lens[n, k])
+                                        seq = tuple(int(y[i, n, k]) for i in range(L))
+                                        if dead:
+                                            problem = problem or f"path {seq} with score {s_} sits behind an unusable (-inf) slot"
+                                        if prev_s is not None and s_ > prev_s:
+                                            problem = problem or f"scores are not best-first at slot {k}"
+                                        prev_s = s_
+                                        if seq in seen:
+                                            problem = problem or f"path {seq} is returned twice"
+                                        seen.add(seq)
+                                        if eos is not None and eos in seq[:-1]:
+                                            problem = problem or f"path {seq} continues after its first eos"
+                                        if len(inits) == 1 and (eos is None or eos not in seq) and L != y.shape[0]:  # (in a batch an element is frozen when it is done)
+                                            problem = problem or f"unfinished path {seq} has length {L} after {y.shape[0]} steps"
+                                        want = chained(V, init, seq)
+                                        if s_ != want:
+                                            problem = problem or f"path {seq} is reported at {s_}; the model's chained score of these tokens is {want}"
+                                    if problem is None and fap and width >= n_complete and eos is not None and seen != set(complete(V, eos, T)):
+                                        problem = f"a beam of width {width} run to completion returns {sorted(seen)}; the complete sequences are {complete(V, eos, T)}"
+                                    if problem is None and len(inits) == 2:
+                                        alone = search(V, width, eos, fap, T, (init,))
+                                        if not isinstance(alone, str):
+                                            ya, la, pa = alone
+                                            mine = [(tuple(int(y[i, n, k]) for i in range(int(lens[n, k]))), lp[n, k]) for k in range(lp.shape[1]) if lp[n, k] != -math.inf]
+                                            solo = [(tuple(int(ya[i, 0, k]) for i in range(int(la[0, k]))), pa[0, k]) for k in range(pa.shape[1]) if pa[0, k] != -math.inf]
+                                            if mine != solo:
+                                                problem = f"element {n} of the batch returns {mine[:3]}..; searched alone it returns {solo[:3]}.."
+                                    if problem and bad is None:
+                                        bad = (cfg, f"batch element {n}: {problem}")
+    except NotEvaluable:
+        return False
+    col.count("beam_table_rows", rows)
+    col.count("beam_table_ties_skipped", skipped)
+    if rows < 60:
+        return False
+    col.ob("G12", "S10", f"{where}::beam-table", bad is None, (f"{bad[0]}: {bad[1]}") if bad else "", rel, fwd.line, sample=dict(rows=rows, skipped=skipped))
+    return True
 
 
 def _pad_block_takes_extents_from_its_partner(ctx: Ctx):
